@@ -405,6 +405,8 @@ pub struct OptSpec {
     pub version_names: Option<Names>,
     pub fallback_to_usage: bool,
     pub max_width: Option<usize>,
+    /// `bpaf::cargo_helper(name, parser)` around the root (what `#[bpaf(options("name"))]` makes)
+    pub cargo: Option<String>,
 }
 
 impl OptSpec {
@@ -420,6 +422,7 @@ impl OptSpec {
             version_names: None,
             fallback_to_usage: false,
             max_width: None,
+            cargo: None,
         }
     }
     pub fn help_names(&self) -> Names {
@@ -701,7 +704,13 @@ impl OptSpec {
         s
     }
     fn write(&self, s: &mut String) {
+        if let Some(c) = &self.cargo {
+            let _ = write!(s, "cargo_helper({:?}, ", c);
+        }
         self.root.write(s);
+        if self.cargo.is_some() {
+            s.push(')');
+        }
         s.push_str(".to_options()");
         if let Some(d) = &self.descr {
             let _ = write!(s, ".descr({:?})", d);
